@@ -188,4 +188,52 @@ theorem self_import_skipped (cwd frm imp dir p b ff : Str) (fd : List Str)
   rw [e, htrim]
   simp
 
+
+/-- the ES-module flavour: `import_path` returns `./ff.js`, the test strips `.js` once and recognises the file -/
+theorem self_import_skipped_esm (cwd frm imp dir p b ff : Str) (fd : List Str)
+    (hdir : parent frm = some dir) (hfn : fileName frm = some (ff ++ dotTs))
+    (hp : absolute cwd imp = .ok p) (hb : absolute cwd dir = .ok b)
+    (hpc : components p = Comp.root :: N (fd ++ [ff ++ dotTs]))
+    (hbc : components b = Comp.root :: N fd)
+    (hff : ff ≠ []) (hffs : '/' ∉ ff)
+    (hts : endsWith dotTs ff = false) (hjs : endsWith dotJs ff = false) :
+    importPath true cwd frm imp = some (.ok (['.', '/'] ++ ff ++ dotJs)) ∧
+    isSameFile frm (['.', '/'] ++ ff ++ dotJs) = true := by
+  have hN : N (fd ++ [ff ++ dotTs]) = N fd ++ [Comp.normal (ff ++ dotTs)] := by simp [N]
+  have hdiff : diffLoop false (N (fd ++ [ff ++ dotTs])) (N fd) = [Comp.normal (ff ++ dotTs)] := by
+    rw [hN]; exact diffLoop_prefix fd _ (by simp)
+  have himp : importPath true cwd frm imp = some (.ok (specOfRel true
+      (ofComps (diffLoop false (N (fd ++ [ff ++ dotTs])) (N fd))))) := by
+    simp only [importPath, hdir, diffPaths, hp, hb, hpc, hbc, bind, Except.bind, pure, Except.pure]
+    simp [diffLoop]
+  have hrel : ofComps [Comp.normal (ff ++ dotTs)] = ff ++ dotTs := by simp [ofComps, compStr, intercalate]
+  have hne1 : ff ++ dotTs ≠ [] := by simp [dotTs]
+  have hs : '/' ∉ ff ++ dotTs := by simp [dotTs, hffs]
+  have hne2 : ff ++ dotTs ≠ ['.'] := by
+    intro h; have := congrArg List.length h; simp [dotTs] at this
+  have hne3 : ff ++ dotTs ≠ ['.', '.'] := by
+    intro h; have := congrArg List.length h; simp [dotTs] at this
+  have hstr : strPathOf (ff ++ dotTs) = ['.', '/'] ++ (ff ++ dotTs) := by
+    unfold strPathOf
+    rw [components_name _ hne1 hs hne2 hne3]
+    rfl
+  have hx := ext_none '.' 't' 's' (by decide) (by decide) (by decide) ff ['.'] hff hffs hts
+  have htrim : trimEndMatches dotTs ((['.'] ++ ['/'] ++ ff) ++ dotTs) = ['.'] ++ ['/'] ++ ff :=
+    trimEndMatches_once dotTs _ (by decide) hx
+  have e : ['.', '/'] ++ (ff ++ dotTs) = (['.'] ++ ['/'] ++ ff) ++ dotTs := by simp
+  have hspec : specOfRel true (ofComps [Comp.normal (ff ++ dotTs)]) = ['.', '/'] ++ ff ++ dotJs := by
+    simp only [specOfRel, hrel, hstr, if_true]
+    rw [e, htrim]
+    simp
+  refine ⟨by rw [himp, hdiff, hspec], ?_⟩
+  have ht1 : trimEndMatches dotTs (ff ++ dotTs) = ff :=
+    trimEndMatches_once dotTs ff (by decide) (endsWith_false_strip _ _ hts)
+  have hy := ext_none '.' 'j' 's' (by decide) (by decide) (by decide) ff ['.'] hff hffs hjs
+  have ht2 : trimEndMatches dotJs ((['.'] ++ ['/'] ++ ff) ++ dotJs) = ['.'] ++ ['/'] ++ ff :=
+    trimEndMatches_once dotJs _ (by decide) hy
+  have e2 : ['.', '/'] ++ ff ++ dotJs = (['.'] ++ ['/'] ++ ff) ++ dotJs := by simp
+  simp only [isSameFile, hfn, ht1]
+  rw [e2, ht2]
+  simp
+
 end TsRs.Path
